@@ -668,6 +668,10 @@ pub fn c17(run: &Run) -> (u64, u64) {
     par_for(fens.len(), |i| {
         let (base, depth) = fens[i];
         let base_pos = if base == "startpos" { Pos::startpos() } else { Pos::from_fen(base.trim_start_matches("fen ")).unwrap() };
+        if !base_pos.is_legal_position() {
+            run.machinery_error(format!("C17 base {base} is not a legal position"));
+            return;
+        }
         let mut d = match Drv::new(1) {
             Ok(d) => d,
             Err(e) => {
